@@ -10153,6 +10153,13 @@ func (p *parser) visitForLoopInit(stmt js_ast.Stmt, isInOrOf bool) js_ast.Stmt {
 		p.stmtExprValue = s.Value.Data
 		s.Value, _ = p.visitExprInOut(s.Value, exprIn{assignTarget: assignTarget})
 
+		// "for (a.#b of c)" => "for (__privateWrapper(a, #b)._ of c)"
+		if isInOrOf {
+			if value, ok := p.lowerSuperPropertyOrPrivateInAssign(s.Value); ok {
+				s.Value = value
+			}
+		}
+
 	case *js_ast.SLocal:
 		for i := range s.Decls {
 			d := &s.Decls[i]
